@@ -319,6 +319,16 @@ type ntsCase struct {
 	PlaceLen     int   `json:"placeholder_len"`
 	PlainLen     int   `json:"plaintext_len"`
 	Filler       uint64 `json:"filler"`
+	// Unknown: extension fields of other types inserted between the encoded ones (never behind the authenticator).
+	// A receiver must skip them (RFC 7822); their bodies must not be taken for fields of a known kind.
+	Unknown []unkField `json:"unknown_fields,omitempty"`
+}
+
+type unkField struct {
+	Before  int    `json:"before_field"` // index of the encoded field it is inserted in front of
+	Type    uint16 `json:"type"`
+	BodyLen int    `json:"body_len"` // multiple of 4
+	Pattern int    `json:"pattern"`  // 0 zeros, 1 starts like a 32-byte cookie field, 2 like an authenticator field, 3 filler, 4 like a unique identifier field
 }
 
 func pad4(n int) int { return (n + 3) &^ 3 }
@@ -448,9 +458,50 @@ func checkNTS(t failer, c ntsCase) {
 	if !bytes.Equal(d.Auth.Nonce, wireNonce) || !bytes.Equal(d.Auth.CipherText, wireCT) {
 		t.Fatalf("decoded nonce/ciphertext differ from the bytes on the wire")
 	}
+	if len(c.Unknown) == 0 {
+		return
+	}
+	// the same fields with unknown ones in between: every known field still decodes as the kind it was encoded as
+	b2 := bytes.Clone(b[:48])
+	for i, f := range fs {
+		for _, u := range c.Unknown {
+			if u.Before%len(fs) != i {
+				continue
+			}
+			uf := make([]byte, 4+u.BodyLen)
+			binary.BigEndian.PutUint16(uf, u.Type)
+			binary.BigEndian.PutUint16(uf[2:], uint16(len(uf)))
+			body := uf[4:]
+			switch u.Pattern {
+			case 1:
+				copy(body, []byte{0x02, 0x04, 0x00, 0x20})
+			case 2:
+				copy(body, []byte{0x04, 0x04, 0x00, 0x1c, 0x00, 0x10, 0x00, 0x10})
+			case 3:
+				fill(body, c.Filler+uint64(i)+7)
+			case 4:
+				copy(body, []byte{0x01, 0x04, 0x00, 0x24})
+			}
+			b2 = append(b2, uf...)
+		}
+		b2 = append(b2, b[f.off:f.off+4+len(f.body)]...)
+	}
+	var d2 nts.Packet
+	if err := nts.DecodePacket(&d2, b2); err != nil {
+		t.Fatalf("DecodePacket refused a packet with extension fields of unknown types %+v between the known ones: %v", c.Unknown, err)
+	}
+	if len(d2.Cookies) != len(d.Cookies) || len(d2.CookiePlaceholders) != len(d.CookiePlaceholders) || !bytes.Equal(d2.UniqueID.ID, d.UniqueID.ID) ||
+		!bytes.Equal(d2.Auth.Nonce, d.Auth.Nonce) || !bytes.Equal(d2.Auth.CipherText, d.Auth.CipherText) {
+		t.Fatalf("with unknown fields %+v in between: decoded %d cookies, %d placeholders, identifier %s; without them %d, %d, %s", c.Unknown, len(d2.Cookies), len(d2.CookiePlaceholders), hx(d2.UniqueID.ID), len(d.Cookies), len(d.CookiePlaceholders), hx(d.UniqueID.ID))
+	}
+	for i := range d.Cookies {
+		if !bytes.Equal(d2.Cookies[i].Cookie, d.Cookies[i].Cookie) {
+			t.Fatalf("with unknown fields %+v in between: cookie %d decodes as %s instead of %s", c.Unknown, i, hx(d2.Cookies[i].Cookie), hx(d.Cookies[i].Cookie))
+		}
+	}
 }
 
-var recNTS = ev.New("c14/nts-extension-fields", "rapid: packets with unique id 32..64 bytes, 1..8 cookies of 1..200 bytes, 0..7 placeholders, plaintext 0..600 bytes, constrained by construction to fit the 1024-byte maximum; encoded with EncodePacket, walked by an independent RFC 7822 walker (alignment, lengths, exact kind sequence 0x104,0x204*,0x304*,0x404), decoded with DecodePacket (same kinds and counts, values equal up to zero padding, nonce/ciphertext equal to the wire). Non-trivial: >= 1 placeholder; distinct by the case parameters")
+var recNTS = ev.New("c14/nts-extension-fields", "rapid: packets with unique id 32..64 bytes, 1..8 cookies of 1..200 bytes, 0..7 placeholders, plaintext 0..600 bytes, constrained by construction to fit the 1024-byte maximum; encoded with EncodePacket, walked by an independent RFC 7822 walker (alignment, lengths, exact kind sequence 0x104,0x204*,0x304*,0x404), decoded with DecodePacket (same kinds and counts, values equal up to zero padding, nonce/ciphertext equal to the wire); for a third of the packets also with 1..3 extension fields of unknown types (bodies that look like known field headers) in between: the known fields decode unchanged. Non-trivial: >= 1 placeholder; distinct by the case parameters")
 
 func genNTS(t *rapid.T) ntsCase {
 	c := ntsCase{
@@ -481,6 +532,16 @@ func genNTS(t *rapid.T) ntsCase {
 		default:
 			c.CookieLens[0] /= 2
 			c.PlaceLen = c.CookieLens[0]
+		}
+	}
+	if rapid.IntRange(0, 2).Draw(t, "unknown-fields") == 0 {
+		for n := rapid.IntRange(1, 3).Draw(t, "nunknown"); n > 0; n-- {
+			c.Unknown = append(c.Unknown, unkField{
+				Before:  rapid.IntRange(0, 20).Draw(t, "before"),
+				Type:    rapid.SampledFrom([]uint16{0x0000, 0x0105, 0x0205, 0x0004, 0x4104, 0x8204, 0x0504, 0x2005, 0xffff, 0x0103}).Draw(t, "utype"),
+				BodyLen: 4 * rapid.IntRange(0, 16).Draw(t, "ubody"),
+				Pattern: rapid.IntRange(0, 4).Draw(t, "upattern"),
+			})
 		}
 	}
 	return c
